@@ -313,6 +313,8 @@ def run_case(cs):
         _strace_audit(cs, d, area, root, dest, state)
     if state == "nested" and rng.random() < 0.3:
         _race(cs, rng, root)
+    if rng.random() < 0.12:
+        _interrupt(cs, rng, d, area, root)
     cs.sample({"state": state, "tree": sorted(tree)[:6]})
 
 
@@ -350,6 +352,52 @@ def _strace_audit(cs, d, area, root, dest, state):
         bad = [r for r in relevant if not all(os.path.abspath(p).startswith(dest) for p in r[1])]
         if bad:
             cs.violation("flatten-writes-outside-destination", {"kind": "syscall-mutation", "cmd": tool, "event": bad[0][0]}, {**ctx, "syscalls": [r[2] for r in bad[:3]]})
+
+
+def _interrupt(cs, rng, d, area, root):
+    """Ctrl-C while create writes a manifest or a chain file: the run ends with an error like any other failing run, so no
+    temporary file and no ascmhl folder without chain file may stay behind"""
+    from .. import crash
+
+    argv = [root] + world.fmt_args(world.gen_formats(rng)[:2])
+    ref = os.path.join(d, "interrupt-ref")
+    shutil.rmtree(ref, ignore_errors=True)
+    subprocess.run(["cp", "-a", area, ref])
+    ref_root = os.path.join(ref, os.path.relpath(root, area))
+    log = os.path.join(d, "interrupt-events.log")
+
+    def run_at(r0):
+        def f():
+            r = drive.run("create", [r0] + argv[1:])
+            return 1000 if r.internal else r.exit
+
+        return f
+
+    status, E = crash.run_forked(run_at(ref_root), 0, None, log)
+    shutil.rmtree(ref, ignore_errors=True)
+    cand = [e[0] for e in E if e[1] in ("write", "flush", "close", "rename")]
+    if not (isinstance(status, tuple) and status[0] == "done") or not cand:
+        return
+    k = rng.choice(cand)
+    before = snap.snap(area)
+    status, ev = crash.run_forked(run_at(root), k, "sigint", log)
+    after = snap.snap(area)
+    if status != "crashed":
+        return
+    cs.evaluated()
+    cs.count("create_commands")
+    cs.count("create_interrupted_by_ctrl_c")
+    kind = [e[1] for e in E if e[0] == k][0]
+    cs.cls("create", "interrupt-" + kind, "any", "sigint")
+    df = snap.diff(before, after)
+    left = [p for p in df["added"] if p.endswith(".tmp")]
+    chainless = [p for p in df["added"] if os.path.basename(p) == "ascmhl" and not any(q == p + "/ascmhl_chain.xml" for q in df["added"])]
+    if left or chainless:
+        cs.violation(
+            "create-changes-more-than-documented",
+            {"kind": "snapshot-diff", "cmd": "create-interrupted", "what": (["temporary-file-left"] if left else []) + (["ascmhl-folder-without-generation"] if chainless else []), "media_touched": False},
+            {"event": kind, "left": left[:3], "chainless": chainless[:3]},
+        )
 
 
 def _race(cs, rng, root):
